@@ -236,8 +236,6 @@ def exclusions (d : Doc2 Json) : List String :=
   (if (d.consumes.filter (fun m => !isFormMime m)).length ≥ 2 &&
       (sharedVals d).any (fun p => p.loc == "body" && (p.schema.map hasXnull).getD false)
    then ["SharedBodyNullableLost"] else []) ++
-  (if d.paths.any (fun p => p.ops.any (fun o => o.params.any (formItemsTwice (effConsumes d.consumes o))))
-   then ["FormItemsNullableLost"] else []) ++
   (if d.loc.host == "" && (d.loc.basePath != "" || !d.loc.schemes.isEmpty) then ["BasePathWithoutHost"] else [])
 
 partial def schBranches (s : Sch Json) : List String :=
@@ -273,6 +271,7 @@ def branches (d : Doc2 Json) (excl : List String) : List String :=
       (match o.security with | some (.arr #[]) => ["op.security.empty"] | some _ => ["op.security"] | none => []) ++
       (if !o.produces.isEmpty then ["op.produces"] else []) ++
       (if !(formVals o.params).isEmpty && formTwice (effConsumes d.consumes o) then ["op.form.bothMediaTypes"] else []) ++
+      (if o.params.any (formItemsTwice (effConsumes d.consumes o)) then ["op.form.bothMediaTypes.itemsNullable"] else []) ++
       o.params.flatMap (paramBranches "param") ++ o.responses.flatMap (fun (_, r) => respBranches "resp" r))) ++
     d.secs.map (fun (_, s) => "sec." ++ s.type ++ (if s.flow != "" then "." ++ s.flow else "")) ++
     (if d.loc.host != "" then ["loc.host"] else []) ++ (if d.loc.basePath != "" then ["loc.basePath"] else []) ++
